@@ -9,7 +9,7 @@ BASE = dict(
     BadEvents="FALSE", FoUuid="<- Fo10", Savers='{"p"}', MaxSaves="2", MaxCrash="1", MaxAcks="2", MaxGen="2",
     MaxNotify="0", MaxEnds="0", MaxFail="0", AutoReset='"earliest"', Finite="FALSE", AutoCkpt="FALSE",
     Infos="<- NoInfos", Info0="<- Info11", EndCauses="{}", Hold="FALSE", AllowClose="FALSE", Rollbacks="FALSE",
-    FailSaves="TRUE", Focus="TRUE", Record="FALSE", RM="FALSE", Slots="1", RmUuids="{1, 2}", Scrapes="FALSE", Marking="FALSE", WindAt="0", Gaps="{}", Bugs="{}")
+    FailSaves="TRUE", Focus="TRUE", Record="FALSE", ReadOnly="FALSE", RM="FALSE", Slots="1", RmUuids="{1, 2}", Scrapes="FALSE", HookScrapes="FALSE", Marking="FALSE", WindAt="0", Gaps="{}", Bugs="{}")
 DATA = dict(BASE)
 GEN = dict(BASE, NVB="1", InitLog="<- EmptyLog", Kinds='{"mut", "del", "exp", "sys", "adv"}', Keys='{"user", "conn", "txn"}',
            OldEvents="TRUE", BadEvents="TRUE", MaxSaves="1", Rollbacks="TRUE", FailSaves="FALSE")
@@ -74,6 +74,9 @@ CFGS = {
     "WitReplayLife1": rep(LIFE, NVB="1", MaxSeq="3", MaxSaves="5", MaxAcks="5", MaxNotify="5", MaxEnds="6", Hold="TRUE"),
     "WitReplayLife": rep(LIFE, MaxSeq="3", MaxSaves="5", MaxAcks="5", MaxNotify="5", MaxEnds="6", Hold="TRUE"),
     # ---- start-up faults ------------------------------------------------------------------------------------
+    "MCRoQ": mc(DATA, ReadOnly="TRUE", MaxAcks="1", MaxSaves="1", MaxGen="1", FailSaves="FALSE", AllowClose="TRUE", AutoCkpt="TRUE"),
+    "MCRo": mc(DATA, ReadOnly="TRUE", MaxAcks="1", FailSaves="FALSE", AllowClose="TRUE", AutoCkpt="TRUE"),
+    "SimRo": simc(DATA, 44, ReadOnly="TRUE", Savers='{"p", "c"}', FailSaves="FALSE", AllowClose="TRUE", AutoCkpt="TRUE"),
     "MCRmQ": mc(GEN, RM="TRUE", Slots="2", MaxSeq="2", Kinds='{"mut", "adv"}', Keys='{"user"}', OldEvents="FALSE", BadEvents="FALSE",
                 Rollbacks="FALSE", MaxCrash="0", MaxSaves="0", MaxAcks="0", AllowClose="TRUE", Focus="TRUE"),
     "MCRm": mc(GEN, RM="TRUE", Slots="3", MaxSeq="2", Kinds='{"mut", "adv"}', Keys='{"user"}', OldEvents="FALSE", BadEvents="FALSE",
@@ -87,10 +90,10 @@ CFGS = {
     "WitRm": wit(GEN, RM="TRUE", Slots="2", MaxSeq="2", Kinds='{"mut", "adv"}', Keys='{"user"}', OldEvents="FALSE", BadEvents="FALSE",
                  Rollbacks="FALSE", MaxCrash="0", MaxSaves="1", MaxAcks="0", AllowClose="TRUE", Focus="TRUE"),
     "WitReplayRm": rep(GEN, RM="TRUE", Slots="2", MaxSeq="4", MaxSaves="10", MaxAcks="10", MaxCrash="0", MaxGen="4", AllowClose="TRUE", Rollbacks="FALSE"),
-    "MCMetricQ": mc(LIFE, Scrapes="TRUE", MaxNotify="1", MaxEnds="0", MaxSaves="0", MaxAcks="1", MaxSeq="1", Hold="TRUE", AllowClose="FALSE", AutoCkpt="FALSE"),
-    "MCMetric": mc(LIFE, Scrapes="TRUE", MaxNotify="1", MaxEnds="1", MaxSaves="1", MaxAcks="2", MaxSeq="2", Hold="TRUE",
+    "MCMetricQ": mc(LIFE, Scrapes="TRUE", HookScrapes="TRUE", MaxNotify="1", MaxEnds="0", MaxSaves="0", MaxAcks="1", MaxSeq="1", Hold="TRUE", AllowClose="FALSE", AutoCkpt="FALSE"),
+    "MCMetric": mc(LIFE, Scrapes="TRUE", HookScrapes="TRUE", MaxNotify="1", MaxEnds="1", MaxSaves="1", MaxAcks="2", MaxSeq="2", Hold="TRUE",
                    Kinds='{"mut", "del", "exp", "sys"}', Keys='{"user", "conn"}'),
-    "SimMetric": simc(LIFE, 55, Scrapes="TRUE", MaxNotify="2", MaxEnds="2", MaxSaves="2", MaxAcks="3", MaxSeq="3", Hold="TRUE",
+    "SimMetric": simc(LIFE, 55, Scrapes="TRUE", HookScrapes="TRUE", MaxNotify="2", MaxEnds="2", MaxSaves="2", MaxAcks="3", MaxSeq="3", Hold="TRUE",
                       Kinds='{"mut", "del", "exp", "sys", "adv"}', Keys='{"user", "conn"}', OldEvents="TRUE"),
     "MCFaultQ": mc(FAULT, MaxFail="1"),
     "MCFault": mc(FAULT),
